@@ -46,6 +46,8 @@ def run(tier):
         if m["kind"] == "panic":
             continue  # C02 / C03 report panics; here they only end the comparison
         chk.violation({"kind": m["kind"], "what": m.get("what", "")[:160], "program": m.get("program", m.get("call", ""))}, m)
+    from vlib import codeswalk
+    codeswalk.run(chk, tier)
     chk.assumptions += ["the incremental route may reject more programs than the batch route (it sees values where the batch route sees types): not compared",
                         "repeatability of exec() is demanded when the program left the host's own cell untouched"]
     return chk.finish()
